@@ -219,6 +219,13 @@ class Evaluator:
             return self._eval_name(e.id, env, e)
         if isinstance(e, ast.Attribute):
             return self._eval_attr(e, env)
+        if isinstance(e, ast.Call) and isinstance(e.func, ast.Name) and e.func.id == "getattr" and len(e.args) in (2, 3) and isinstance(e.args[1], ast.Constant) and isinstance(e.args[1].value, str):
+            v = self.eval(ast.copy_location(ast.Attribute(value=e.args[0], attr=e.args[1].value, ctx=ast.Load()), e), env)
+            if v != U:
+                return v
+            return self.eval(e.args[2], env) if len(e.args) == 3 else U
+        if isinstance(e, ast.Call) and isinstance(e.func, ast.Name) and e.func.id in ("list", "tuple", "sorted", "copy", "deepcopy") and len(e.args) == 1 and not e.keywords:
+            return self.eval(e.args[0], env)  # a copy denotes the same values
         if isinstance(e, ast.BinOp) and isinstance(e.op, ast.Add):
             l, r = self.eval(e.left, env), self.eval(e.right, env)
             if len(l) == 1 and len(r) == 1:
@@ -240,7 +247,22 @@ class Evaluator:
 
     def _eval_name(self, name: str, env: Env, node: ast.AST) -> ValSet:
         if name in env.params:
-            return env.params[name]
+            base = env.params[name]
+            # `if p is None: p = DEFAULT` style re-binding of a parameter: the body may see either value
+            key = (env.func.qualname, name)
+            if key in env._busy:
+                return base
+            rebinds = [n for n in own_nodes(env.func.node) if isinstance(n, ast.Assign) and any(isinstance(t, ast.Name) and t.id == name for t in n.targets)]
+            if not rebinds:
+                return base
+            env._busy.add(key)
+            try:
+                out = frozenset(v for v in base if not (v.kind == "const" and v.value is None)) if len(base) > 1 or not all(v.kind == "const" and v.value is None for v in base) else frozenset()
+                for n in rebinds:
+                    out = out | self.eval(n.value, env)
+                return out or base
+            finally:
+                env._busy.discard(key)
         key = (env.func.qualname, name)
         if key in env._busy:
             return U
@@ -282,7 +304,8 @@ class Evaluator:
                 return out or U
             m = env.func.module
             if name in m.assigns:
-                return self.eval(m.assigns[name], Env(func=env.func, params={}, inst=None, _busy=env._busy))
+                v = self.eval(m.assigns[name], Env(func=env.func, params={}, inst=None, _busy=env._busy))
+                return v if v != U else self._fold_constant(m, name)
             tgt = m.imports.get(name)
             if tgt:
                 r = self.prog.resolve_symbol(tgt)
@@ -290,13 +313,39 @@ class Evaluator:
                     mod, attr = r.rsplit(".", 1)
                     if mod in self.prog.modules and attr in self.prog.modules[mod].assigns:
                         m2 = self.prog.modules[mod]
-                        return self.eval(m2.assigns[attr], Env(func=_module_func(m2), params={}))
+                        v = self.eval(m2.assigns[attr], Env(func=_module_func(m2), params={}))
+                        return v if v != U else self._fold_constant(m2, attr)
             return U
         finally:
             env._busy.discard(key)
 
+    def _fold_constant(self, module, name: str) -> ValSet:
+        """module-level constant computed from literals (slices, concatenations, comprehensions): fold it"""
+        from .constfold import Folder, Unfoldable
+
+        try:
+            fo = Folder(module)
+            fo.prog = self.prog
+            val = fo.fold(ast.Name(id=name, ctx=ast.Load()))
+        except (Unfoldable, RecursionError):
+            return U
+
+        def conv(x):
+            if isinstance(x, (str, int, float, bool)) or x is None:
+                return Val("const", x)
+            if isinstance(x, (list, tuple)):
+                return Val("list", tuple(conv(y) for y in x))
+            return UNKNOWN
+
+        return vs(conv(val))
+
     def _eval_attr(self, e: ast.Attribute, env: Env) -> ValSet:
         f = env.func
+        # self.<stage>.<attr>: the attribute of a stage object held by this object
+        if isinstance(e.value, ast.Attribute) and isinstance(e.value.value, ast.Name) and env.inst is not None and f.params and e.value.value.id == f.params[0]:
+            sub = env.inst.attr_inst.get(env.inst.cls.mangle(e.value.attr))
+            if sub is not None:
+                return sub.get(e.attr)
         if isinstance(e.value, ast.Name):
             base = e.value.id
             root: Optional[Func] = f
